@@ -11,8 +11,8 @@ struct Found { int kind; std::string detail; std::vector<int> choices; int devia
 
 struct ExploreCfg {
     Config mpi; int workers; long max_exec; double deadline_s; int bound;      // bound < 0: unbounded (all interleavings)
-    double child_timeout_s; std::string tmpdir; std::string label;
-    ExploreCfg() : workers(4), max_exec(2000000), deadline_s(1e9), bound(-1), child_timeout_s(20) {}
+    double child_timeout_s; std::string tmpdir; std::string label; bool stop_at_first;
+    ExploreCfg() : workers(4), max_exec(2000000), deadline_s(1e9), bound(-1), child_timeout_s(20), stop_at_first(true) {}
 };
 struct ExploreResult {
     long executions, states, transitions, cut_runs, max_points; bool exhaustive; int bound_completed; std::vector<Found> found; std::map<std::string,long> outcomes; std::string engine_error; double wall_s;
